@@ -245,7 +245,7 @@ func CoerceString(v Value) string {
 func GetAttr(v Value, attr Value, args ...Value) (Value, error) {
 	r := reflect.Indirect(reflect.ValueOf(v))
 	if !r.IsValid() {
-		return nil, fmt.Errorf("getattr: value does not support attribute lookup: %v", v)
+		return nil, fmt.Errorf("getattr: value does not support attribute lookup: %T", v)
 	}
 	var retval reflect.Value
 	switch r.Kind() {
@@ -267,7 +267,7 @@ func GetAttr(v Value, attr Value, args ...Value) (Value, error) {
 		// A slice, map or function can never be a key: looking one up in a map
 		// with an interface key type would panic ("hash of unhashable type").
 		if !ok || !key.Type().Comparable() {
-			return nil, fmt.Errorf("getattr: cannot use \"%v\" as key of \"%v\"", attr, v)
+			return nil, fmt.Errorf("getattr: cannot use \"%s\" as key of %T", describe(attr), v)
 		}
 		retval = r.MapIndex(key)
 	case reflect.Slice, reflect.Array:
@@ -277,24 +277,24 @@ func GetAttr(v Value, attr Value, args ...Value) (Value, error) {
 		}
 	}
 	if !retval.IsValid() {
-		return nil, fmt.Errorf("getattr: unable to locate attribute \"%s\" on \"%v\"", attr, v)
+		return nil, fmt.Errorf("getattr: unable to locate attribute \"%s\" on %T", describe(attr), v)
 	}
 	if retval.Kind() == reflect.Func {
 		if retval.IsNil() {
-			return nil, fmt.Errorf("getattr: attribute \"%s\" on \"%v\" is a nil function", attr, v)
+			return nil, fmt.Errorf("getattr: attribute \"%s\" on %T is a nil function", describe(attr), v)
 		}
 		t := retval.Type()
 		if t.NumOut() > 1 {
-			return nil, fmt.Errorf("getattr: multiple return values unsupported, called method \"%s\" on \"%v\"", attr, v)
+			return nil, fmt.Errorf("getattr: multiple return values unsupported, called method \"%s\" on %T", describe(attr), v)
 		}
 		if t.IsVariadic() || t.NumIn() != len(args) {
-			return nil, fmt.Errorf("getattr: method \"%s\" on \"%v\" expects %d parameter(s), %d given", attr, v, t.NumIn(), len(args))
+			return nil, fmt.Errorf("getattr: method \"%s\" on %T expects %d parameter(s), %d given", describe(attr), v, t.NumIn(), len(args))
 		}
 		rargs := make([]reflect.Value, len(args))
 		for k, arg := range args {
 			rarg, ok := convertArg(arg, t.In(k))
 			if !ok {
-				return nil, fmt.Errorf("getattr: cannot use \"%v\" as parameter %d of method \"%s\" on \"%v\"", arg, k+1, attr, v)
+				return nil, fmt.Errorf("getattr: cannot use \"%s\" as parameter %d of method \"%s\" on %T", describe(arg), k+1, describe(attr), v)
 			}
 			rargs[k] = rarg
 		}
@@ -305,6 +305,20 @@ func GetAttr(v Value, attr Value, args ...Value) (Value, error) {
 		retval = res[0]
 	}
 	return retval.Interface(), nil
+}
+
+// describe renders a key or argument for an error message: scalars by value,
+// anything else by its type. Formatting an arbitrary container with %v does not
+// terminate when the container holds itself.
+func describe(v Value) string {
+	switch reflect.ValueOf(v).Kind() {
+	case reflect.Invalid, reflect.Bool, reflect.String,
+		reflect.Int, reflect.Int8, reflect.Int16, reflect.Int32, reflect.Int64,
+		reflect.Uint, reflect.Uint8, reflect.Uint16, reflect.Uint32, reflect.Uint64,
+		reflect.Float32, reflect.Float64:
+		return fmt.Sprintf("%v", v)
+	}
+	return fmt.Sprintf("%T", v)
 }
 
 // fieldByIndex returns the nested field of the struct v reached by index,
@@ -372,7 +386,7 @@ func getMethod(v Value, name string) (reflect.Value, error) {
 	if retVal.IsValid() {
 		return retVal, nil
 	}
-	return retVal, fmt.Errorf("stick: unable to locate method \"%s\" on \"%v\"", name, v)
+	return retVal, fmt.Errorf("stick: unable to locate method \"%s\" on %T", name, v)
 }
 
 // An Iteratee is called for each step in a loop.
@@ -478,7 +492,7 @@ func Iterate(val Value, it Iteratee) (int, error) {
 		}
 		return ln, nil
 	default:
-		return 0, fmt.Errorf(`stick: unable to iterate over %s "%v"`, r.Kind(), val)
+		return 0, fmt.Errorf(`stick: unable to iterate over %s "%s"`, r.Kind(), describe(val))
 	}
 }
 
@@ -492,7 +506,7 @@ func Len(val Value) (int, error) {
 	case reflect.Slice, reflect.Array, reflect.Map:
 		return r.Len(), nil
 	}
-	return 0, fmt.Errorf(`stick: could not get Length of %s "%v"`, r.Kind(), val)
+	return 0, fmt.Errorf(`stick: could not get Length of %s "%s"`, r.Kind(), describe(val))
 }
 
 // Equal returns true if the two Values are considered equal.
